@@ -74,7 +74,9 @@ def content_spec(draw, mn, mx, pool_seeds=(1, 2, 3, 4)):
     return [['r', seed, size]]
 
 
-_NAME_ALPHABET = st.sampled_from(list('abcXYZ019 _-.,;!$&()[]{}\'"`~^%#@+=') + ['é', 'ж', '日', '😀', '\udc80', '\udcff', '\udce9'])
+_NAME_ALPHABET = st.sampled_from(list('abcXYZ019 _-.,;!$&()[]{}\'"`~^%#@+=') + ['é', 'ж', '日', '😀', '\udc80', '\udcff', '\udce9',
+                                                                                 # not NFC-normalised: decomposed accent, OHM SIGN, ANGSTROM SIGN, Hangul jamo, a ligature
+                                                                                 'e\u0301', '\u2126', '\u212b', '\u1100\u1161', '\ufb01'])
 
 
 @st.composite
